@@ -157,7 +157,7 @@ int asn1_null_from_der(const uint8_t **in, size_t *inlen);
 #define ASN1_OID_MIN_NODES 2
 #define ASN1_OID_MAX_NODES 32
 #define ASN1_OID_MIN_OCTETS 1
-#define ASN1_OID_MAX_OCTETS (1 + (ASN1_OID_MAX_NODES - 2) * 5)
+#define ASN1_OID_MAX_OCTETS (5 + (ASN1_OID_MAX_NODES - 2) * 5) // the first subidentifier 40*X + Y needs up to 5 octets too (X = 2, Y large)
 int asn1_object_identifier_to_octets(const uint32_t *nodes, size_t nodes_cnt, uint8_t *out, size_t *outlen);
 int asn1_object_identifier_from_octets(uint32_t *nodes, size_t *nodes_cnt, const uint8_t *in, size_t inlen);
 
